@@ -62,7 +62,7 @@ CHECKS["C02"] = {
 CHECKS["C01"] = {
     "text": "PARTIAL. Decided by the specification: the direction algebra - Pipeline.tla's plan of a definition is a word over elementary operators; TLC checks that Plan(d, Inv) is the reversed, direction-flipped Plan(d, Fwd) and that inverse-after-forward / forward-after-inverse restore the operands exactly for every enumerated definition of invertible steps, inv modifiers, pipelines and (nested, inverted) macros; replayed into the library with exact comparison (probe basis and exact built-ins: addone, adapt, axisswap, integer helmert) and with the hook-logged dispatch sequence compared with the specification's plan. NOT decided by the specification: that each elementary operator's inverse numerically undoes its forward - this enters as an axiom and is validated as an assumption over a catalogue lattice with the statement's tolerances (reported separately as assumption_evaluations).",
     "design_ref": "DESIGN.md §5.1",
-    "note": "Bounded: definitions of <= 3 steps over 4 probes and 4 macros. The catalogue lattice (spec/RoundTrip.tla: 28 operator families x aspects x every built-in ellipsoid x integer degree/metre points x both orders; quick 1.8e4, thorough 1.7e6 round trips) is evaluated on the ground with the statement's classes (exact 0; rigorous 10 um; btmerc/butm/omerc/cart above 100 km 1 mm; molodensky 'millimetre level' taken as 20 mm for |lat| <= 80) and reported as assumption_evaluations. Numerical accuracy between lattice points and for random ellipsoids is numerical analysis and is not decided.",
+    "note": "Bounded: definitions of <= 3 steps over 4 probes and 4 macros. The catalogue lattice (spec/RoundTrip.tla: 28 operator families x aspects x every built-in ellipsoid x integer degree/metre points x both orders; quick 1.8e4, thorough 1.7e6 round trips) is evaluated on the ground with the statement's classes (exact 0; rigorous 10 um; btmerc/butm/omerc/cart above 100 km 1 mm; molodensky 'millimetre level' taken as 20 mm for |lat| <= 70) and reported as assumption_evaluations. Numerical accuracy between lattice points and for random ellipsoids is numerical analysis and is not decided.",
     "technique": "TLA+ spec + TLC (free-group algebra of plans); behaviours replayed into the library; dispatch-hook conformance; catalogue lattice as validated assumption",
 }
 
